@@ -388,6 +388,42 @@ def track_handed(ad, op, out, handed):
         handed[:] = []
 
 
+def shrink(spec, ops, n, seed, signature, budget=120):
+    """Delta debugging over the op list, then over n: smallest input that still fails with the same signature."""
+    ad = G.adapter(spec)
+
+    def fails(o, k):
+        try:
+            fl, _ = probe_state(ad, o, k, seed)
+        except Exception:  # noqa: BLE001
+            return None
+        for s, w in fl:
+            if s == signature:
+                return w
+        return None
+    what = fails(ops, n)
+    if what is None:
+        return ops, n, None
+    ops = list(ops)
+    changed = True
+    while changed and budget > 0:
+        changed = False
+        for i in range(len(ops) - 1, -1, -1):
+            cand = ops[:i] + ops[i + 1:]
+            budget -= 1
+            w = fails(cand, n)
+            if w is not None:
+                ops, what, changed = cand, w, True
+            if budget <= 0:
+                break
+    for k in range(0, n):
+        w = fails(ops, k)
+        if w is not None:
+            n, what = k, w
+            break
+    return ops, n, what
+
+
 def run_case(args):
     spec, seed, nops, stride = args[:4]
     directed = len(args) > 4 and args[4]
@@ -551,6 +587,7 @@ def run(chk: Check) -> int:
         for sig, what in fl:
             chk.fail(sig, what, d)
     per_type, nhist, kinds = {}, {}, {}
+    shrunk = {}
     for r in results:
         name = G.spec_name(_sig_spec(r["spec"]))
         t = per_type.setdefault(name, {"cases": 0, "probes": 0, "states_with_pending": 0, "failing_probes": 0})
@@ -567,7 +604,17 @@ def run(chk: Check) -> int:
         if r["len"] > 5:
             chk.sample({"learner": G.spec_name(r["spec"]), "ops": r["ops"][:6]})
         for f in r["fails"][:2]:
+            if f["signature"] not in shrunk:
+                rp = f["replay"]
+                ops, n, what = shrink(rp["spec"], rp["ops"], rp["n"], rp["seed"], f["signature"])
+                if what is not None:
+                    f = {"signature": f["signature"], "what": what + " [minimised]", "replay": dict(rp, ops=ops, n=n)}
+                shrunk[f["signature"]] = f
+                chk.failures.insert(0, f)       # minimised inputs first in the replay file
+                continue
             chk.fail(f["signature"], f["what"], f["replay"])
+    chk.extra["minimised_failing_inputs"] = {s: {"learner": G.spec_name(f["replay"]["spec"]), "ops": f["replay"]["ops"], "n": f["replay"]["n"]}
+                                             for s, f in shrunk.items()}
     chk.extra.update({"twin_experiments_per_learner_type": per_type, "request_size_histogram": dict(sorted(nhist.items())),
                       "op_histogram": kinds, "configurations": len(specs), "exhaustive": False,
                       "learner2d_runs_here": not l2d_exc, "balancing_over_integrator_can_ask": not bi_exc})
